@@ -189,6 +189,7 @@ def nested_history(ck, rng, fails):
     outer = TransformedParameter("outer", inner, D.AffineTransform(loc, scale))
     _ = outer(), inner(), outer.tensor
     steps = []
+    emode = rng.choice(["no_grad", "grad"])
     for k in range(rng.randrange(2, 5)):
         new = [rng.uniform(-3, 3) for _ in range(m)]
         mode = rng.choice(["assign", "inplace", "inplace"])
@@ -201,6 +202,16 @@ def nested_history(ck, rng, fails):
                     p.tensor.copy_(t64(new))
                 p.fire_parameter_changed()
             u = t64(new)
+            import contextlib
+
+            with (torch.no_grad() if emode == "no_grad" else contextlib.nullcontext()):
+                _ = outer.tensor, outer(), inner()
+            if not torch.equal(p.tensor.detach(), u):
+                fails.append((f"TransformedParameter[nested]:input-mutated:{emode}",
+                              f"after update {k} ({mode}) evaluating the nesting ({emode}) changed the innermost parameter from "
+                              f"{new} to {p.tensor.tolist()}",
+                              {"type": "nested", "loc": loc, "scale": scale, "inner": inner_t.__name__, "u0": u0, "steps": list(steps)}))
+                return
             want_val = loc + scale * inner_f(u)
             want_outer = torch.full_like(u, math.log(abs(scale)))
             want_inner = inner_ld(u)
